@@ -1,4 +1,4 @@
 #!/bin/sh
-# tools/collect_seed.sh <Cxx> <suffix>: copy an agent's deliverables into /verif/seeded/<Cxx>_<suffix>
-id=$1; suf=$2; d=/verif/seeded/${id}_$suf; mkdir -p $d
-cp /tmp/wt_$id/patch.diff $d/ && cp /tmp/wt_$id/demo_$id.py $d/ && cp /tmp/wt_$id/NOTES.md $d/ && echo collected $d
+# tools/collect_seed.sh <Cxx> <suffix> [worktree prefix]: copy an agent's deliverables into /verif/seeded/<Cxx>_<suffix>
+id=$1; suf=$2; pre=${3:-/tmp/wt_}; d=/verif/seeded/${id}_$suf; mkdir -p $d
+cp $pre$id/patch.diff $d/ && cp $pre$id/demo_$id.py $d/ && cp $pre$id/NOTES.md $d/ && echo collected $d
